@@ -16,7 +16,7 @@ CONFIG = {
         "V.C04.refuses_repeated_member", "V.C04.refuses_field_variant", "V.C04.keep_names_no_variant",
         "V.C04.accepted_keys_nodup", "V.C04.accepted_no_variant", "V.C04.accessors_read_exact_members",
     ],
-    "rule": "events built with EventBuilder.Build (real ed25519; 14 event types incl. every protected one, state key absent / '' / "
+    "rule": "event.untrusted_view (round 3): for every text the untrusted constructor hands an event back for - also together with a too-large-but-persistable error - the harness evaluates the clauses on what the caller gets: not flagged redacted => the content hash, recomputed without the library event code, matches; flagged => JSON() is its own redaction; and every accessor (the parse tuple plus Redacts(), IsSticky(), StickyEndTime(), Version(), Membership(), JoinRule(), StateKeyEquals) answers as on the same JSON re-read as trusted input (accessors_only_see_json on the implementation); tampering inject.accessor-keys adds redacts / sticky / msc4354_sticky next to a content change. events built with EventBuilder.Build (real ed25519; 14 event types incl. every protected one, state key absent / '' / "
             "user / other, 0-4 prev and auth references, IntSafe contents, depths 0..2^53-1, all 16 versions) x 27 tamperings "
             "(content keys inside / outside the keep-list added, changed, removed; floats; extra top-level keys incl. case variants "
             "Event_id / Unsigned / Type / long-s sender; unsigned, age_ts, outlier, destinations, event_id; hashes corrupted, retyped, "
